@@ -96,6 +96,9 @@ class Clean:
                     return (r[0], 'per-line map (Indentizer.to_list, C18.map) of ' + r[1])
             # a function of the package that hands out a list it has built itself: judged on its return values
             sym = ctx.prog.resolve_expr_symbol(fn.module, f) if isinstance(f, (ast.Name, ast.Attribute)) else None
+            if not isinstance(sym, FuncInfo):
+                cs_ = [c_ for c_ in env.resolve_call(e) if isinstance(c_, FuncInfo)]
+                sym = cs_[0] if len(cs_) == 1 else sym       # a method of self / of a typed receiver
             if isinstance(sym, FuncInfo) and sym is not fn and sym.module.name.startswith('dznpy') and depth < 6 and \
                     not any(isinstance(y, (ast.Yield, ast.YieldFrom)) for y in ast.walk(sym.node)):
                 rets = [r_ for r_ in iter_own_nodes(sym.node) if isinstance(r_, ast.Return) and r_.value is not None]
@@ -280,8 +283,10 @@ def check(ctx):
         for c_ in iter_own_nodes(app.node):
             if isinstance(c_, ast.Call) and isinstance(c_.func, (ast.Name, ast.Attribute)):
                 sy_ = prog.resolve_expr_symbol(app.module, c_.func)
-                if isinstance(sy_, FuncInfo) and sy_.module is app.module and sy_ not in scope_fns:
-                    scope_fns.append(sy_)
+                cands_ = [sy_] if isinstance(sy_, FuncInfo) else [x_ for x_ in cg.env(app).resolve_call(c_) if isinstance(x_, FuncInfo)]
+                for sy_ in cands_:
+                    if sy_.module is app.module and sy_ not in scope_fns:
+                        scope_fns.append(sy_)
         for app_, n in [(f_, x_) for f_ in scope_fns for x_ in iter_own_nodes(f_.node)]:
             if isinstance(n, ast.Call) and isinstance(n.func, ast.Attribute) and n.func.attr == 'append' and n.args:
                 r = cl.clean_str(app_, n.args[0], at=n)
@@ -292,6 +297,31 @@ def check(ctx):
                 r = cl.clean_str(app_, n.elts[0], at=n.elts[0])
                 if r[0] and 'empty string' in r[1]:
                     has_empty_branch = True
+        # a block that is appended contributes its LINES: on the path where `content` may be a TextBlock it must not reach the
+        # flattening / str() - the string form of a block carries its header as well
+        cparam = app.params()[1].arg if len(app.params()) > 1 else 'content'
+        abs2 = Abs(prog, cg, ctx.flow)
+        leaks = []
+        for n in iter_own_nodes(app.node):
+            if isinstance(n, ast.Name) and n.id == cparam and isinstance(n.ctx, ast.Load):
+                par = prog.parent(n)
+                if isinstance(par, ast.Call) and n in par.args and getattr(par.func, 'id', getattr(par.func, 'attr', '')) != 'isinstance':
+                    excluded = any(isinstance(c_, ast.Call) and getattr(c_.func, 'id', '') == 'isinstance' and len(c_.args) == 2 and
+                                   isinstance(c_.args[0], ast.Name) and c_.args[0].id == cparam and
+                                   'TextBlock' in ast.unparse(c_.args[1]) and not pol_
+                                   for c_, pol_ in abs2.facts_at(n))
+                    if not excluded:
+                        leaks.append(par)
+        takes_lines = any(isinstance(n, ast.Attribute) and n.attr in ('lines', '_lines') and isinstance(n.value, ast.Name) and
+                          n.value.id == cparam for n in iter_own_nodes(app.node))
+        ok_blk = takes_lines and not leaks
+        run.add('C17.provenance', app.module.name, app.qualname, 'an appended block contributes its lines', ok_blk,
+                'a TextBlock handed to append() is taken by its lines; only other content is flattened' if ok_blk else
+                (f'`{ast.unparse(leaks[0])[:60]}` also receives a TextBlock `{cparam}` (no dominating `isinstance({cparam}, TextBlock)` '
+                 f'excludes it): the block is appended through its string form, so its header lines turn into content lines - '
+                 f'appending is no longer the concatenation of the lines' if leaks else
+                 f'append() never takes `{cparam}.lines`: a block is appended through its string form (header included)'),
+                node=leaks[0] if leaks else None)
         run.add('C17.provenance', app.module.name, app.qualname, 'blank-line branch', has_empty_branch,
                 'an empty string contributes one blank line (appended as itself, since "".splitlines() == [])'
                 if has_empty_branch else
@@ -382,11 +412,50 @@ def check(ctx):
                 f'of the content are lost, the chunk is no longer content plus appendix', node=bad_uses[0] if bad_uses else None)
 
 
+def _str_by_interpretation(ctx, tb: ClassInfo, m: FuncInfo):
+    """TextBlock.__str__ interpreted (dznverif.scenario, E6) on blocks whose header / line buffers hold zero to three strings
+    (a blank one among them): the result must be the concatenation of `line + EOL` over header then lines.  __str__ only
+    joins and concatenates the entries, so their number and emptiness is all that matters.  List of disagreements, None when
+    the method cannot be interpreted."""
+    from ..scenario import Interp, Obj, Raised, Undecided
+    prog = ctx.prog
+    eol = const_str(ctx, m, ast.Name(id='EOL', ctx=ast.Load())) or '\n'
+    bad: List[str] = []
+    fields = list(prog.class_fields(tb))
+    try:
+        for header in ([], ['H'], ['H1', 'H2'], ['']):
+            for lines in ([], ['a'], [''], ['a', 'b'], ['a', '', 'b'], ['', '']):
+                o = Obj(tb, {'_header': list(header), '_lines': list(lines), '_indentizer': None, '_chunk_spacing': None})
+                try:
+                    got = Interp(prog).call_function(m, [], {}, self_val=o)
+                except Raised as exc:
+                    bad.append(f'header={header!r} lines={lines!r}: raises {exc.name.split(".")[-1]}')
+                    continue
+                want = ''.join(x + eol for x in header + lines)
+                if not isinstance(got, str):
+                    raise Undecided('__str__ does not yield a string')
+                if got != want:
+                    bad.append(f'header={header!r} lines={lines!r} renders {got!r}, expected {want!r}')
+                if o.fields['_header'] != header or o.fields['_lines'] != lines:
+                    bad.append(f'header={header!r} lines={lines!r}: rendering changes the block')
+    except Undecided:
+        return None
+    return bad
+
+
 def _str_rule(ctx, tb: ClassInfo):
     run = ctx.run
     m = tb.methods.get('__str__')
     if m is None:
         run.error('C17.str', tb.module.name, 'TextBlock', '__str__', 'TextBlock.__str__ vanished')
+        return
+    sem = _str_by_interpretation(ctx, tb, m)
+    if sem is not None:
+        run.add('C17.str', m.module.name, m.qualname, 'string form of header + lines', not sem,
+                'the string form is every header line and every content line followed by one EOL, and empty for a block without '
+                'lines (__str__ interpreted on blocks with 0-3 lines, with and without header, blank lines included)' if not sem else
+                'string form: ' + '; '.join(sem[:3]))
+        run.floor('C17.str', 1)
         return
     rets = [n for n in iter_own_nodes(m.node) if isinstance(n, ast.Return)]
     abs_ = Abs(ctx.prog, ctx.cg, ctx.flow)
